@@ -1,7 +1,7 @@
 (** Evaluator glue shared by C01 and C02: one case = configuration, rule
     lists, safe-browsing / parental host sets, safe-search verdicts, request,
     scripted upstream answers, and what the real pipeline was observed to do. *)
-From AGH Require Export Base.Run Base.NetAddr Base.RuleEngine Model.Pipeline.
+From AGH Require Export Base.Run Base.NetAddr Base.RuleEngine Model.Pipeline Model.PipelineLists.
 From AGH Require Model.Rewrites.
 Local Open Scope N_scope.
 
@@ -12,7 +12,19 @@ Definition mk_rw (d a : bytes) (p : option addr) : Rewrites.entry :=
     {| Rewrites.w_dom := d; Rewrites.w_ans := a;
        Rewrites.w_parse := option_map (fun x => {| Rewrites.ip_is4 := is4 x; Rewrites.ip_val := a_val x |}) p |}.
 
+(** One step of a history on a server whose rule lists are switched on and
+    off through the set_url API: a change, or a query with what the real
+    pipeline was observed to do. *)
+Inductive lstep :=
+  | SChange (ch : lchange)
+  | SAsk (ss : list (bytes * N * ssverdict)) (q : request)
+         (ups : list (bytes * option resp)) (up : option resp) (obs : outcome).
+
 Inductive case :=
+  (* a whole history over one server: the lists with their flags at the
+     start, then changes and queries; every query must get the outcome of
+     Model/PipelineLists.ask in the state reached so far *)
+  | CLists (c : cfg) (st : lstate) (sb par : list bytes) (steps : list lstep)
   | CPipe (c : cfg) (allow block : list rule) (sb par : list bytes)
           (ss : list (bytes * N * ssverdict))
           (q : request) (ups : list (bytes * option resp)) (up : option resp) (obs : outcome)
@@ -117,8 +129,34 @@ Fixpoint ss_lookup (tbl : list (bytes * N * ssverdict)) (h : bytes) (qt : N) : o
 Definition scripted (ups : list (bytes * option resp)) (up : option resp) : upstream :=
   fun name _ => match assoc_bytes ups (lower name) with Some r => r | None => up end.
 
+Definition ask_model (cf : cfg) (sb par : list bytes) (st : lstate) ss q ups up : outcome :=
+  ask (fun h => mem_bytes h sb) (fun h => mem_bytes h par) (ss_lookup ss) Rewrites.isort st cf (scripted ups up) q.
+
+(** Replays the history; the list of (model outcome, observed outcome, agree). *)
+Fixpoint run_lists (cf : cfg) (sb par : list bytes) (st : lstate) (steps : list lstep)
+    : list (outcome * outcome * bool) :=
+  match steps with
+  | nil => nil
+  | SChange ch :: rest => run_lists cf sb par (apply_change st ch) rest
+  | SAsk ss q ups up obs :: rest =>
+      let m := ask_model cf sb par st ss q ups up in
+      (m, obs, outcome_eqb m obs) :: run_lists cf sb par st rest
+  end.
+
+Definition empty_outcome : outcome :=
+  mkOutcome None nil (mkResult NotFilteredNotFound false nil nil nil nil None) false false nil.
+
+(** What the model computes for the first query of the history on which it
+    disagrees with the observation (for replay files), else for the last one. *)
+Definition lists_explain (l : list (outcome * outcome * bool)) : outcome :=
+  match find (fun x => negb (snd x)) l with
+  | Some (m, _, _) => m
+  | None => match rev l with (m, _, _) :: _ => m | nil => empty_outcome end
+  end.
+
 Definition model (c : case) : outcome :=
   match c with
+  | CLists cf st sb par steps => lists_explain (run_lists cf sb par st steps)
   | CPipe cf allow block sb par ss q ups up _
   | CRepeat cf allow block sb par ss q ups up _ =>
       process (match_request allow) (match_request block)
@@ -129,6 +167,7 @@ Definition model (c : case) : outcome :=
 
 Definition case_ok (c : case) : bool :=
   match c with
+  | CLists cf st sb par steps => forallb (fun x => snd x) (run_lists cf sb par st steps)
   | CPipe _ _ _ _ _ _ _ _ _ obs => outcome_eqb (model c) obs
   | CRepeat _ _ _ _ _ _ _ _ _ obs => repeat_eqb (model c) obs
   end.
